@@ -5,6 +5,9 @@
 
 #include <carquet/carquet.h>
 #include <string.h>
+#ifdef CARQUET_VERIF
+#include <stdlib.h>
+#endif
 
 #if defined(_MSC_VER)
 #include <intrin.h>
@@ -134,6 +137,27 @@ carquet_status_t carquet_init(void) {
 
 #if defined(__x86_64__) || defined(__i386__) || defined(_M_X64) || defined(_M_IX86)
     detect_x86_features();
+#ifdef CARQUET_VERIF
+    /* Verification hook H1: AND the detected x86 feature bits with a mask taken from the
+     * environment, so that the dispatcher can be exercised for every capability set on one
+     * machine. Bit i of the mask keeps the i-th x86 field of carquet_cpu_info_t:
+     * 0 sse2, 1 sse41, 2 sse42, 3 avx, 4 avx2, 5 avx512f, 6 avx512bw, 7 avx512vl, 8 avx512vbmi. */
+    {
+        const char* cap = getenv("CARQUET_VERIF_CPU_CAP");
+        if (cap && *cap) {
+            unsigned long m = strtoul(cap, NULL, 0);
+            g_cpu_info.has_sse2 = g_cpu_info.has_sse2 && ((m >> 0) & 1);
+            g_cpu_info.has_sse41 = g_cpu_info.has_sse41 && ((m >> 1) & 1);
+            g_cpu_info.has_sse42 = g_cpu_info.has_sse42 && ((m >> 2) & 1);
+            g_cpu_info.has_avx = g_cpu_info.has_avx && ((m >> 3) & 1);
+            g_cpu_info.has_avx2 = g_cpu_info.has_avx2 && ((m >> 4) & 1);
+            g_cpu_info.has_avx512f = g_cpu_info.has_avx512f && ((m >> 5) & 1);
+            g_cpu_info.has_avx512bw = g_cpu_info.has_avx512bw && ((m >> 6) & 1);
+            g_cpu_info.has_avx512vl = g_cpu_info.has_avx512vl && ((m >> 7) & 1);
+            g_cpu_info.has_avx512vbmi = g_cpu_info.has_avx512vbmi && ((m >> 8) & 1);
+        }
+    }
+#endif
 #elif defined(__aarch64__) || defined(_M_ARM64) || defined(__arm__) || defined(_M_ARM)
     detect_arm_features();
 #endif
